@@ -453,6 +453,17 @@ func c09CLINegatives(s *sut.SUT, c *ev.Check, rng *rand.Rand, kdir string, keys 
 		key  int
 		val  string
 		what string
+		cwd  string // working directory of the decrypt run ("" = the key directory)
+	}
+	// what the default workflow (`redact --encrypt in -o out`, no -q) leaves behind: a directory whose
+	// anonymongo.enc.key IS the key a value was encrypted with. Decrypting there with ANOTHER key named
+	// on the command line must fail all the same.
+	for ki := range keys {
+		d := filepath.Join(kdir, fmt.Sprintf("cwd%d", ki))
+		os.MkdirAll(d, 0o755)
+		if b, err := os.ReadFile(filepath.Join(kdir, fmt.Sprintf("k%d.key", ki))); err == nil {
+			os.WriteFile(filepath.Join(d, "anonymongo.enc.key"), b, 0o600)
+		}
 	}
 	var negs []neg
 	for i := 0; i < 40; i++ {
@@ -461,7 +472,8 @@ func c09CLINegatives(s *sut.SUT, c *ev.Check, rng *rand.Rand, kdir string, keys 
 		if len(ct) > 2000 {
 			continue
 		}
-		negs = append(negs, neg{(ki + 1) % len(keys), ct, "wrong key"})
+		negs = append(negs, neg{(ki + 1) % len(keys), ct, "wrong key", ""})
+		negs = append(negs, neg{(ki + 1) % len(keys), ct, "wrong key named, the right key is ./anonymongo.enc.key", filepath.Join(kdir, fmt.Sprintf("cwd%d", ki))})
 		// character-level edits of the base64 text
 		b := []byte(ct)
 		p := rng.Intn(len(b))
@@ -477,18 +489,23 @@ func c09CLINegatives(s *sut.SUT, c *ev.Check, rng *rand.Rand, kdir string, keys 
 		// decodes to the SAME ciphertext bytes: not an altered ciphertext
 		if d0, e0 := base64.StdEncoding.DecodeString(ct); e0 == nil {
 			if d1, e1 := base64.StdEncoding.DecodeString(string(e)); e1 != nil || !bytes.Equal(d0, d1) {
-				negs = append(negs, neg{ki, string(e), fmt.Sprintf("base64 character %d replaced", p)})
+				negs = append(negs, neg{ki, string(e), fmt.Sprintf("base64 character %d replaced", p), ""})
 			}
 		}
 		if len(b) > 4 {
-			negs = append(negs, neg{ki, string(b[:len(b)-4]), "last base64 quantum removed"})
-			negs = append(negs, neg{ki, string(b[4:]), "first base64 quantum removed"})
+			negs = append(negs, neg{ki, string(b[:len(b)-4]), "last base64 quantum removed", ""})
+			negs = append(negs, neg{ki, string(b[4:]), "first base64 quantum removed", ""})
 		}
-		negs = append(negs, neg{ki, strings.NewReplacer("+", "-", "/", "_").Replace(ct) + "!", "not base64"})
+		negs = append(negs, neg{ki, strings.NewReplacer("+", "-", "/", "_").Replace(ct) + "!", "not base64", ""})
 	}
 	parallelDo(len(negs), func(i int) {
 		n := negs[i]
-		raw, has, r := decryptCLI(s, kdir, filepath.Join(kdir, fmt.Sprintf("k%d.key", n.key)), n.val)
+		dir := kdir
+		if n.cwd != "" {
+			dir = n.cwd
+			c.Count("cli_negative_decrypts_next_to_the_right_key", 1)
+		}
+		raw, has, r := decryptCLI(s, dir, filepath.Join(kdir, fmt.Sprintf("k%d.key", n.key)), n.val)
 		c.Count("cli_negative_decrypts", 1)
 		if r.TimedOut {
 			c.Inconclusive("watchdog")
